@@ -1,3 +1,240 @@
-(* placeholder while the harness is being brought up *)
-From PR Require Import Model.AreaConfig Model.AreaYaml.
-Theorem C13_placeholder : True. Proof. exact I. Qed.
+(* C13 — create_area_def is parameter-set independent, rejects contradictions, returns a dynamic area when
+   information is missing; AreaDefinition.dump followed by load_area* is lossless.
+   Only statements here; proofs live in Proofs/C13_*.v.  The model is Model/AreaConfig.v (area_config.py, generic
+   over the arithmetic) and Model/AreaYaml.v (dump / load at the level of the parsed dictionaries).  PROJ, pyproj's
+   CRS parsing and the YAML text layer are oracles (function / table arguments), never axioms. *)
+From Coq Require Import Reals ZArith Bool List Lra Lia PrimFloat.
+From PR Require Import Base.Num Base.RNum Base.F64 Model.AreaConfig Model.AreaYaml Model.C13_run
+     Proofs.C13_base Proofs.C13_sets Proofs.C13_contra Proofs.C13_missing Proofs.C13_round Proofs.C13_yaml.
+Import ListNotations.
+Open Scope R_scope.
+
+(* ------------------------------------------------------------------------------------------------------------
+   1. Every one of the seven sufficient descriptions derived from a grid g gives g back: shape exactly, extent
+      exactly (real arithmetic).  The values may be handed over in the projection's own unit, in another metric
+      unit (s projection units per given unit, PROJ's factor), per keyword or per DataArray attribute, or in degrees
+      on a geographic CRS.  The three descriptions that contain a centre need the centre not to be moved by
+      _round_poles (see 2.). *)
+Theorem C13_param_sets_agree :
+  forall (pfwd pinv : R * R -> option (R * R)) (fac : cu -> R) (geographic : bool) (crs_units : cu)
+         (d : desc) (g : grid) (attr units : option utok) (c : cu) (s : R),
+    wf_grid g ->
+    unit_ok fac geographic crs_units (eff_units crs_units attr units) c s ->
+    (uses_center d = true -> round_poles RO pfwd pinv (g_center g) (cu_eqb c Cdeg) = Ok (g_center g)) ->
+    create_area_def RO pfwd pinv fac geographic crs_units (describe d g s attr units) = Area (g_ext g) (gh g, gw g).
+Proof. exact param_sets_agree. Qed.
+Print Assumptions C13_param_sets_agree.
+(* the hypotheses are satisfiable: a 20 x 10 grid on a metre CRS described in kilometres (factor 1000), with an
+   invertible projection oracle whose "latitude" of the centre is far from a pole *)
+Example C13_param_sets_ex :
+  let g := mk_grid (-200000) (-300000) 400000 500000 20 10 in
+  let id := fun p : R * R => Some (fst p / 100000, snd p / 100000) in
+  let fw := fun p : R * R => Some (fst p * 100000, snd p * 100000) in
+  wf_grid g /\ unit_ok (fun _ => 1000) false Cm (eff_units Cm None (Some UTkm)) Ckm 1000 /\
+  round_poles RO fw id (g_center g) (cu_eqb Ckm Cdeg) = Ok (g_center g).
+Proof.
+  cbn zeta. split; [unfold wf_grid; cbn; repeat split; lra || lia|]. split.
+  - unfold unit_ok, eff_units. cbn. split; [reflexivity|]. right. repeat split; try discriminate; lra.
+  - apply round_poles_metric_id with (ll := (1, 1)).
+    + unfold g_center. cbn. f_equal. f_equal; lra.
+    + cbn [snd]. rewrite c1em4_val. rewrite (Rabs_pos_eq 1) by lra.
+      unfold Rabs. destruct (Rcase_abs _); lra.
+    + unfold g_center. cbn. f_equal. f_equal; lra.
+Qed.
+
+(* ------------------------------------------------------------------------------------------------------------
+   2. _round_poles: the centre is left alone unless it lies within 1e-4 degrees of a pole (degrees: pure
+      arithmetic; other units: PROJ inverse, test, PROJ forward, so additionally the round trip must be exact). *)
+Theorem C13_centre_kept_degrees :
+  forall pfwd pinv (c : R * R), c_1em4 RO <= Rabs (Rabs (snd c) - 90) -> round_poles RO pfwd pinv c true = Ok c.
+Proof. exact round_poles_deg_id. Qed.
+Print Assumptions C13_centre_kept_degrees.
+Theorem C13_centre_kept_metric :
+  forall pfwd pinv (c ll : R * R),
+    pinv c = Some ll -> c_1em4 RO <= Rabs (Rabs (snd ll) - 90) -> pfwd ll = Some c -> round_poles RO pfwd pinv c false = Ok c.
+Proof. exact round_poles_metric_id. Qed.
+Print Assumptions C13_centre_kept_metric.
+Theorem C13_centre_snapped_degrees :
+  forall pfwd pinv (lon lat : R), 0 < lat -> Rabs (lat - 90) < c_1em4 RO -> round_poles RO pfwd pinv (lon, lat) true = Ok (lon, 90).
+Proof. exact round_poles_deg_snaps. Qed.
+Print Assumptions C13_centre_snapped_degrees.
+(* Without that hypothesis clause 1 is refuted on the current tree (known finding C13.param_sets.pole_snap):
+   binary64 run of the model on a geographic CRS, grid extent (-20, 79.99995, 20, 99.99995), shape (20, 40):
+   centre + radius + shape gives (-20, 80, 20, 100).  The same input is replayed on the implementation by the harness. *)
+Definition snap_crs_args : args (T:=float) :=
+  @mk_args float None None None (Some (20, 40)%float) None (Some ((0, 0x1.67fff2e48e8a7p+6)%float, None)) None
+           (Some ((20, 10)%float, None)) None.
+Definition snap_es_args : args (T:=float) :=
+  @mk_args float None None (Some ((-20, 0x1.3ffff2e48e8a7p+6, 20, 0x1.8ffff2e48e8a7p+6)%float, None)) (Some (20, 40)%float)
+           None None None None None.
+Definition run_geo (a : args (T:=float)) : outcome float :=
+  create_area_def F64 (fun _ => None) (fun _ => None) (fun _ => 1%float) true Cdeg a.
+Theorem C13_pole_snap_refuted :
+  outcome_eqb (run_geo snap_crs_args) (Area (-20, 80, 20, 100)%float (20, 40)%Z) = true /\
+  outcome_eqb (run_geo snap_es_args) (Area (-20, 0x1.3ffff2e48e8a7p+6, 20, 0x1.8ffff2e48e8a7p+6)%float (20, 40)%Z) = true /\
+  outcome_eqb (run_geo snap_crs_args) (run_geo snap_es_args) = false.
+Proof. vm_compute. repeat split. Qed.
+Print Assumptions C13_pole_snap_refuted.
+
+(* ------------------------------------------------------------------------------------------------------------
+   3. Where shape rounding enters.  extent + an arbitrary positive resolution: the extent is kept exactly and the
+      shape is the pixel count (extent / resolution) pushed through _round_shape, which returns the count itself
+      when it is an integer, else the next integer up, unless the count is less than .01 above an integer (then
+      down).  So the resolution asked for is honoured exactly iff it divides the extent exactly. *)
+Theorem C13_extent_resolution_rounding :
+  forall pfwd pinv fac geographic crs_units, (geographic = true <-> crs_units = Cdeg) ->
+  forall x0 y0 x1 y1 dx dy, x0 < x1 -> y0 < y1 -> 0 < dx -> 0 < dy ->
+    let h := round_dim RO ((y1 - y0) / dy) in
+    let w := round_dim RO ((x1 - x0) / dx) in
+    create_area_def RO pfwd pinv fac geographic crs_units
+      (mk_args None None (Some ((x0, y0, x1, y1), None)) None None None (Some ((dx, dy), None)) None None)
+    = if (h =? 0)%Z || (w =? 0)%Z then Raised else Area (x0, y0, x1, y1) (h, w).
+Proof. exact extent_resolution_rounding. Qed.
+Print Assumptions C13_extent_resolution_rounding.
+Theorem C13_round_shape_exact : forall n : Z, round_dim RO (IZR n) = n.
+Proof. exact round_dim_exact. Qed.
+Theorem C13_round_shape_up : forall x : R, c_001 RO <= x - IZR (Raux.Zfloor x) -> round_dim RO x = Raux.Zceil x.
+Proof. exact round_dim_up. Qed.
+Theorem C13_round_shape_down : forall x : R, x - IZR (Raux.Zfloor x) < c_001 RO -> round_dim RO x = Raux.Zfloor x.
+Proof. exact round_dim_down. Qed.
+Print Assumptions C13_round_shape_up.
+Example C13_round_shape_ex : round_dim RO 7 = 7%Z /\ 1 / 100 - 1 / 10 ^ 17 < c_001 RO < 1 / 100 + 1 / 10 ^ 17.
+Proof. split; [apply (round_dim_exact 7)|apply c001_bounds]. Qed.
+
+(* ------------------------------------------------------------------------------------------------------------
+   4. Contradictions.  _validate_variable raises exactly when some component of the value given is outside
+      numpy.allclose (atol = 1e-8, rtol = 1e-5 relative to the value FOUND) of the value found from the other
+      parameters; otherwise the value found replaces the value given.  Every place where _extrapolate_information
+      combines parameters is covered; a contradiction makes create_area_def raise. *)
+Theorem C13_tolerance_is_allclose :
+  forall given found : R * R, validate2 RO (Some given) found = Err <-> far2 given found.
+Proof. exact validate2_far. Qed.
+Print Assumptions C13_tolerance_is_allclose.
+Theorem C13_consistent_accepted :
+  forall given found : R * R, ~ far2 given found -> validate2 RO (Some given) found = Ok found.
+Proof. exact validate2_near. Qed.
+Theorem C13_tolerance_constants :
+  1 / 100000 - 1 / 10 ^ 20 < rtol RO < 1 / 100000 + 1 / 10 ^ 20 /\
+  1 / 100000000 - 1 / 10 ^ 23 < atol RO < 1 / 100000000 + 1 / 10 ^ 23.
+Proof. exact (conj rtol_bounds atol_bounds). Qed.
+Theorem C13_contradiction_extent_center :
+  forall pfwd pinv fac geographic crs_units e shape c radius res ul units,
+    far2 c (mid e) -> extrapolate RO pfwd pinv fac geographic crs_units (Some e) shape (Some c) radius res ul units = Err.
+Proof. exact contra_extent_center. Qed.
+Theorem C13_contradiction_extent_radius :
+  forall pfwd pinv fac geographic crs_units e shape radius r res ul units,
+    convert_units RO pfwd pinv fac geographic crs_units radius Nradius units (Some (mid e)) = Ok (Some r) -> far2 r (half e) ->
+    extrapolate RO pfwd pinv fac geographic crs_units (Some e) shape None radius res ul units = Err.
+Proof. exact contra_extent_radius. Qed.
+Theorem C13_contradiction_extent_upper_left :
+  forall pfwd pinv fac geographic crs_units e shape res ul units,
+    far2 ul (ulc e) -> extrapolate RO pfwd pinv fac geographic crs_units (Some e) shape None None res (Some ul) units = Err.
+Proof. exact contra_extent_ul. Qed.
+Theorem C13_contradiction_upper_left_center_radius :
+  forall pfwd pinv fac geographic crs_units shape c radius r res ul units,
+    convert_units RO pfwd pinv fac geographic crs_units radius Nradius units (Some c) = Ok (Some r) ->
+    far2 r (fst c - fst ul, snd ul - snd c) ->
+    extrapolate RO pfwd pinv fac geographic crs_units None shape (Some c) radius res (Some ul) units = Err.
+Proof. exact contra_ul_center_radius. Qed.
+Theorem C13_contradiction_radius_resolution_shape :
+  forall pfwd pinv fac geographic crs_units s c radius r res d units,
+    convert_units RO pfwd pinv fac geographic crs_units radius Nradius units (Some c) = Ok (Some r) ->
+    convert_units RO pfwd pinv fac geographic crs_units res Nresolution units (Some c) = Ok (Some d) ->
+    fst d <> 0 -> snd d <> 0 ->
+    far2 (IZR (fst s), IZR (snd s)) (IZR (round_dim RO (2 * snd r / snd d)), IZR (round_dim RO (2 * fst r / fst d))) ->
+    extrapolate RO pfwd pinv fac geographic crs_units None (Some s) (Some c) radius res None units = Err.
+Proof. exact contra_radius_resolution_shape. Qed.
+Theorem C13_contradiction_width_height :
+  forall pfwd pinv fac geographic crs_units (a : args (T:=R)) h w s,
+    a_height a = Some h -> a_width a = Some w -> a_shape a = Some s -> far2 s (h, w) ->
+    create_area_def RO pfwd pinv fac geographic crs_units a = Raised.
+Proof. exact contra_width_height. Qed.
+Theorem C13_one_of_width_height_raises :
+  forall pfwd pinv fac geographic crs_units (a : args (T:=R)),
+    has_one (a_height a) (a_width a) = true -> create_area_def RO pfwd pinv fac geographic crs_units a = Raised.
+Proof. exact one_of_width_height. Qed.
+(* end to end: extent + resolution of a grid together with a centre that is not the extent's midpoint *)
+Theorem C13_contradictions_raise :
+  forall pfwd pinv fac geographic crs_units, (geographic = true <-> crs_units = Cdeg) ->
+  forall (g : grid) (c : R * R),
+    wf_grid g -> round_poles RO pfwd pinv c (cu_eqb crs_units Cdeg) = Ok c -> far2 c (g_center g) ->
+    create_area_def RO pfwd pinv fac geographic crs_units
+      (mk_args None None (Some (g_ext g, None)) None None (Some (c, None)) (Some (g_res g, None)) None None) = Raised.
+Proof. exact extent_resolution_vs_center. Qed.
+Print Assumptions C13_contradictions_raise.
+Example C13_contradiction_ex : far2 (0, 3) (0, 2) /\ ~ far2 (0, 2 + 1 / 1000000) (0, 2).
+Proof.
+  pose proof rtol_bounds. pose proof atol_bounds. unfold far2, far. cbn [fst snd]. split.
+  - right. replace (3 - 2) with 1 by lra. rewrite Rabs_R1, (Rabs_pos_eq 2) by lra. lra.
+  - replace (0 - 0) with 0 by lra. replace (2 + 1 / 1000000 - 2) with (1 / 1000000) by lra.
+    rewrite Rabs_R0, (Rabs_pos_eq 2), (Rabs_pos_eq (1 / 1000000)) by lra. lra.
+Qed.
+(* integer shapes: any difference raises while the shape found stays below 99999; beyond that the relative
+   tolerance swallows an off-by-one (100000 given, 100001 found is accepted) *)
+Theorem C13_shape_mismatch_raises :
+  forall a b : Z, a <> b -> (Z.abs b <= 99998)%Z -> far (IZR a) (IZR b).
+Proof. exact far_int. Qed.
+Theorem C13_shape_tolerance_witness : validate_shape RO (Some (100000, 7)%Z) (100001, 7)%Z = Ok (100001, 7)%Z.
+Proof. exact shape_tolerance_witness. Qed.
+Print Assumptions C13_shape_tolerance_witness.
+
+(* ------------------------------------------------------------------------------------------------------------
+   5. Missing information.  For every arithmetic and every oracle: unless create_area_def raises, it returns an
+      AreaDefinition exactly when extent and shape can both be found from what was given (sufficient_ext /
+      sufficient_shape spell out the search order of the code), and otherwise a DynamicAreaDefinition that
+      carries the extent / the shape precisely when that one can be found. *)
+Theorem C13_missing_gives_dynamic :
+  forall (T : Type) (OP : ops T) pfwd pinv fac geographic crs_units (a : args (T:=T)),
+    match create_area_def OP pfwd pinv fac geographic crs_units a with
+    | Raised => True
+    | Area _ _ => sufficient_ext a = true /\ sufficient_shape a = true
+    | Dynamic e s _ => has e = sufficient_ext a /\ has s = sufficient_shape a /\ sufficient_ext a && sufficient_shape a = false
+    end.
+Proof. exact @missing_gives_dynamic. Qed.
+Print Assumptions C13_missing_gives_dynamic.
+Example C13_missing_ex :
+  run_geo (@mk_args float None None None (Some (10, 20)%float) None None None None None) = Dynamic None (Some (10, 20)%Z) None /\
+  outcome_eqb (run_geo (@mk_args float None None None None None (Some ((1, 2)%float, None)) None (Some ((3, 4)%float, None)) None))
+              (Dynamic (Some (-2, -2, 4, 6)%float) None None) = true.
+Proof. vm_compute. split; reflexivity. Qed.
+
+(* ------------------------------------------------------------------------------------------------------------
+   6. dump -> load at the level of the parsed dictionaries: same id, description, shape; same extent, or the
+      extent times PROJ's unit factor when the dump moved non-metre units from the CRS into area_extent (the CRS
+      is then reparsed in metres); for files with many areas every area comes back, in file order or in the order
+      of the regions asked for; a region that is not in the file raises; the loaded area compares equal to the
+      original whenever pyproj finds the reparsed CRS equal and no unit was rewritten. *)
+Theorem C13_dump_load_dict_id :
+  forall (crs_facts : pentry -> bool * cu * (cu -> R)) (a : area_rec (T:=R)),
+    area_ok crs_facts a -> load_one RO crs_facts (dump_dict a) = Ok (loaded_of crs_facts a).
+Proof. exact dump_load_one. Qed.
+Print Assumptions C13_dump_load_dict_id.
+Theorem C13_dump_load_file :
+  forall crs_facts (areas : list (area_rec (T:=R))),
+    Forall (area_ok crs_facts) areas -> NoDup (map r_id areas) ->
+    load_file RO crs_facts (map dump_dict areas) [] = Ok (map (loaded_of crs_facts) areas).
+Proof. exact dump_load_file. Qed.
+Print Assumptions C13_dump_load_file.
+Theorem C13_dump_load_regions :
+  forall crs_facts (areas sel : list (area_rec (T:=R))),
+    Forall (area_ok crs_facts) areas -> NoDup (map r_id areas) -> incl sel areas -> sel <> [] ->
+    load_file RO crs_facts (map dump_dict areas) (map r_id sel) = Ok (map (loaded_of crs_facts) sel).
+Proof. exact dump_load_regions. Qed.
+Theorem C13_load_missing_region :
+  forall crs_facts (areas : list (area_rec (T:=R))) regions r,
+    In r regions -> ~ In r (map r_id areas) -> load_file RO crs_facts (map dump_dict areas) regions = Err.
+Proof. exact load_missing_region. Qed.
+Theorem C13_dump_load_equal :
+  forall crs_facts (a : area_rec (T:=R)), dumped_units a <> Some UTkm -> area_eq RO true a (loaded_of crs_facts a) = true.
+Proof. exact dump_load_equal. Qed.
+Print Assumptions C13_dump_load_equal.
+(* area_ok is satisfiable: a kilometre CRS without EPSG code, reparsed as a projected metre CRS with factor 1000 *)
+Example C13_dump_load_ex :
+  let a := @mk_area_rec R 1 2 3 None (Some UTkm) (5, 6)%Z (-100, -200, 300, 400) in
+  let facts := fun _ : pentry => (false, Cm, fun _ : cu => 1000) in
+  area_ok facts a /\ loaded_extent facts a = (-100 * 1000, -200 * 1000, 300 * 1000, 400 * 1000).
+Proof.
+  cbn zeta. split.
+  - unfold area_ok. cbn. repeat split; try lia; try discriminate. right. reflexivity.
+  - reflexivity.
+Qed.
